@@ -962,6 +962,45 @@ def rule_counters(m, rep, only=None):
             why.append('queued() does not compute submitted - drained')
         rep.ob('C15-R4', 'queued-never-wraps', okq, b.where(),
                'the subtraction is dominated by submitted > drained (or saturating): result in [0, submitted]' if okq else '; '.join(why))
+        # a constant 0 is returned only when there is nothing ahead: the branch that answers 0 lies behind guards that entail
+        # drained >= submitted (`if submitted > drained + 1 { .. } else { 0 }` hides a backlog of one)
+        zero_bad = []
+        for bi, blk in enumerate(b.blocks):
+            if blk['cleanup'] or blk.get('dead'):
+                continue
+            for si, s in enumerate(blk['stmts']):
+                if s['k'] == 'assign' and not s['place']['p'] and s['rv']['k'] == 'use' and s['rv']['op'].get('k') == 'const' and \
+                        str(s['rv']['op'].get('val')) == '0' and s['rv']['op'].get('ty') in ('u64', 'usize'):
+                    # does this constant flow into the return value?
+                    if not any(x == ('const', s['rv']['op'].get('ty'), '0', None) for r_ in ret_terms(T, [bi]) for x in flatten_phi(norm(r_))):
+                        continue
+                    lins = []
+                    for dt, labels, sbi in guards_of(T, bi) or []:
+                        for lab in labels:
+                            if lab[0] == 'bool':
+                                try:
+                                    lins.append(L.guard_ge0(norm(dt), lab[1], atom))
+                                except L.Unknown:
+                                    pass
+                    # D - S >= 0 for some pair of load sites of the two counters
+                    ent = False
+                    for g in lins:
+                        ats = [a_ for a_ in getattr(g, 'coef', {}) or {}]
+                        ss = [a_ for a_ in ats if a_.startswith('S')]
+                        ds = [a_ for a_ in ats if a_.startswith('D')]
+                        for s_ in ss:
+                            for d_ in ds:
+                                try:
+                                    if L.entails(g, L.Lin({d_: 1, s_: -1}, 0)):
+                                        ent = True
+                                except L.Unknown:
+                                    pass
+                    if not ent:
+                        zero_bad.append(bi)
+        if raw:
+            rep.ob('C15-R4', 'queued-zero-only-when-nothing-is-ahead', not zero_bad, b.where(zero_bad[0]) if zero_bad else b.where(),
+                   'the branch answering 0 is taken only when drained >= submitted' if not zero_bad else
+                   'queued() can answer 0 although submitted is ahead of drained (the guard of the 0 branch does not entail drained >= submitted)')
         # ... and it is submitted - drained, not the other way round (which `saturating_sub` would quietly turn into 0)
         dirs = []
         for bi, si in raw:
